@@ -285,7 +285,7 @@ theorem entries_perm (g : Gateway) {routes routes' : List Route} (hp : routes.Pe
   rw [entries_eq, entries_eq]
   exact flatMap_perm_congr fun l _ => hp.flatMap_right _
 
-theorem flatMap_congr_mem {α β} {l : List α} {f g : α → List β} (h : ∀ a ∈ l, f a = g a) :
+theorem flatMap_congr_on {α β} {l : List α} {f g : α → List β} (h : ∀ a ∈ l, f a = g a) :
     l.flatMap f = l.flatMap g := by
   induction l with
   | nil => rfl
@@ -300,7 +300,7 @@ theorem entries_class (g : Gateway) {routes routes' : List Route} (hp : routes.P
     (hn : RouteKeysNodup routes) (a : Entry) :
     (entries g routes).filter (NGF.Sort.equivB entryLe a) = (entries g routes').filter (NGF.Sort.equivB entryLe a) := by
   rw [entries_eq, entries_eq, List.filter_flatMap, List.filter_flatMap]
-  apply flatMap_congr_mem
+  apply flatMap_congr_on
   intro l _
   rw [List.filter_flatMap, List.filter_flatMap]
   apply flatMap_eq_of_perm_of_at_most_one hp
